@@ -1,5 +1,7 @@
 import OlVerif.Props.C04
 import OlVerif.Unparse.OneLine
+import OlVerif.Lower.WfOutStmt
+import OlVerif.Unparse.DerivesProof
 namespace OlVerif.C02
 
 /-- `str.replace("\n", "")` as a function on code points -/
@@ -69,5 +71,37 @@ example : okE (.joinedStr [.const (.str [10, 123, 39, 13]),
   refine ⟨?_, ⟨⟨int_leaf_clean _, by decide⟩, trivial, ?_⟩, trivial⟩
   · intro c hc; simp at hc; omega
   · simp [convToks]; exact clean_nil
+
+
+/-- **The converted program is a well-formed expression tree.**  Whenever the conversion succeeds
+    on a program whose expressions are well-formed (`wfBlock`: every expression, target, default,
+    decorator, base … of every statement, at any depth, is a tree the parser can produce), the
+    tree it returns is well-formed (`wfE`): the transformer keeps shapes (mutual induction over
+    its 13 functions, `Lower/WfOut.lean`), every template the 18 statement kinds are lowered to is
+    well-formed, both wrappers are (`Lower/WfOutStmt.lean`).  All configurations, all symbol tables. -/
+theorem wf_output (cfg : Cfg) (root : SymScope) (body : List Stmt) (e : Expr)
+    (h : lowerFull cfg root body = .ok e) (hw : wfBlock body) : wfE e :=
+  lowerFull_wf cfg root body e h hw
+
+/-- **The text written for the converted program is an expression of CPython's grammar.**
+    Composition of `wf_output` with C03's `unparse_derives`: with the custom unparser, the token
+    list written for the converted program is derived by the expression grammar at the level
+    `eval` mode expects, and the derivation builds exactly the converted tree.  (What `compile`
+    checks beyond the grammar - e.g. a walrus inside a comprehension iterable, KF-D16 - is decided
+    by the oracle.) -/
+theorem output_is_expression (cfg : Cfg) (root : SymScope) (body : List Stmt) (e : Expr)
+    (h : lowerFull cfg root body = .ok e) (hw : wfBlock body) : D Lv.expression (unparseTop e) e :=
+  unparseTop_D e (wf_output cfg root body e h hw)
+
+/-- non-vacuity: a program with a class, a method with defaults, a loop with break and an
+    augmented subscript assignment has well-formed expressions -/
+example : wfBlock
+    [.classDef "A" [.name "B"] [.mk (some "metaclass") (.name "M")]
+      [.functionDef "m" (.mk [] ["self", "k"] none [] [] none [.const (.int 1)])
+        [.for_ (.tuple [.name "i", .starred (.name "r")]) (.call (.name "f") [.name "k"] [])
+          [.if_ (.compare (.name "i") [.gt] [.const (.int 2)]) [.break_] [],
+           .augAssign (.subscript (.name "d") (.tuple [.slice none none none, .name "i"])) .add (.name "r")] [],
+         .return_ (some (.name "k"))] [.name "dec"] 2] [] 1] := by
+  simp [wfBlock, wfS, wfE, wfL, wfO, wfOL, wfA, wfElts, wfKws, wfSlice, wfSliceElts, wfC, isSlice]
 
 end OlVerif.C02
